@@ -853,9 +853,12 @@ class WatParser(RecursiveDescentParser):
                     targets.append(self._parse_ref("label"))
                 arg = targets
             elif op == ArgType.U8:
-                # one day, this byte argument might be used
-                # to indicate which memory to access.
-                arg = 0
+                # A memory index or lane index. The memory index may be
+                # left out, in which case it is memory 0.
+                if is_int(self.look_ahead(0).val):
+                    arg = make_int(self.take())
+                else:
+                    arg = 0
             else:
                 raise NotImplementedError(str(op))
 
